@@ -159,6 +159,17 @@ impl Covercrypt {
         encapsulation: &XEnc,
     ) -> Result<(Secret<32>, XEnc), Error> {
         let (_ss, rights) = full_decaps(msk, encapsulation)?;
+        // Rights that can still be opened but for which the MPK holds no
+        // encryption key (disabled since) cannot be targeted anymore.
+        let rights = rights
+            .into_iter()
+            .filter(|r| mpk.publishes(r))
+            .collect::<std::collections::HashSet<_>>();
+        if rights.is_empty() {
+            return Err(Error::KeyError(
+                "no public key for any of the rights of the encapsulation".to_string(),
+            ));
+        }
         primitives::encaps(
             &mut *self.rng.lock().expect("Mutex lock failed!"),
             mpk,
